@@ -43,7 +43,7 @@ func runC13(c *kit.Ctx) {
 	r1 := c.Rule("R1", "operator table: condition state equals the documented comparison", 8)
 	r2 := c.Rule("R2", "filters: a condition is skipped iff a non-empty filter differs", 4)
 	r3 := c.Rule("R3", "rule state is the conjunction of all condition states", 1)
-	r4 := c.Rule("R4", "action lists are paired with the rule state on change", 3)
+	r4 := c.Rule("R4", "action lists are paired with the rule state on change", 2)
 	r5 := c.Rule("R5", "set-value point mapping and origin stamp", 2)
 	r6 := c.Rule("R6", "schedule condition takes the schedule predicate at the trigger time", 2)
 	r7 := c.Rule("R7", "a point's result is compared with the current stored state of its condition", 1)
@@ -859,9 +859,21 @@ func c13R3(c *kit.Ctx, m *ruModel, e *kit.Func, r3, r4 *kit.Rule) *c13Roles {
 			}
 		}
 	}
+	// counting loops that carry the result in their condition
+	// (`for i := 0; all && i < len(conds); i++`)
+	guardedConj := map[ast.Expr]*ruGuarded{} // by loop condition
+	boundLeaf := map[ast.Expr]bool{}
+	for _, g := range m.guardedLoops(e) {
+		if el := ruSliceElem(info.TypeOf(g.rs.X)); el != nil && types.Identical(el, m.cond) && len(m.condStoresIn(e, g.fs.Body)) == 0 {
+			conj[g.rs] = true
+			guardedConj[g.fs.Cond] = g
+			boundLeaf[g.bound] = true
+		}
+	}
 	o := r3.Ob(e, nil, "conjunction", "the value compared with / stored into the rule's active field is true iff every element of the condition list was examined and found active; no condition state is stored after the loop started")
 	if len(conj) == 0 {
 		o.Undecided("no loop over the condition list besides the evaluation loop: the conjunction is not computed in a recognised form")
+		return nil
 	}
 	isCact := func(x ast.Expr) bool {
 		base, fv, ok := kit.FieldSel(info, x)
@@ -873,6 +885,9 @@ func c13R3(c *kit.Ctx, m *ruModel, e *kit.Func, r3, r4 *kit.Rule) *c13Roles {
 	isRuleActive := func(x ast.Expr) bool { return m.ruleField(e, x) == m.rActive }
 	bf.Atom = func(x ast.Expr) (string, bool, bool) {
 		x = ast.Unparen(x)
+		if boundLeaf[x] {
+			return "more", false, true
+		}
 		if isCact(x) {
 			return "cact", false, true
 		}
@@ -896,6 +911,9 @@ func c13R3(c *kit.Ctx, m *ruModel, e *kit.Func, r3, r4 *kit.Rule) *c13Roles {
 			if s.Get("a:cact") == "F" {
 				s = s.Set("sawF", "T")
 			}
+		}
+		if s.Get("a:more") == "F" {
+			s = s.Set("complete", "T") // a guarded counting loop ran to the end
 		}
 		return s
 	}
@@ -924,6 +942,21 @@ func c13R3(c *kit.Ctx, m *ruModel, e *kit.Func, r3, r4 *kit.Rule) *c13Roles {
 		sinks = append(sinks, sinkObs{val, spec(s), at, s})
 	}
 	bf.OnCond = func(cond ast.Expr, s kit.S) kit.S {
+		if g := guardedConj[cond]; g != nil {
+			// arrival at the head of a guarded counting loop = end of the previous pass
+			if s.Has("it") {
+				switch s.Get("a:cact") {
+				case "F":
+					s = s.Set("sawF", "T")
+				case "":
+					s = s.Set("unex", "T")
+				}
+				s = s.Del("a:cact")
+			} else {
+				s = s.Set("stale", "F")
+			}
+			return s.Del("a:more").Set("it", "1")
+		}
 		if other, leaf := c13CompareSink(info, cond, isRuleActive); other != nil {
 			observe(other, leaf, s)
 		}
@@ -969,7 +1002,8 @@ func c13R3(c *kit.Ctx, m *ruModel, e *kit.Func, r3, r4 *kit.Rule) *c13Roles {
 		return m.isElemOf(e, x, m.cond) && conj[m.elemRange(e, x)]
 	}}
 	corr.hook(st)
-	res := g.Run(kit.NewS(), bf.Client())
+	cl := bf.Client()
+	res := g.Run(bf.ZeroResults(kit.NewS()), cl)
 	if res.Overflow {
 		c.Fatalf("%s: state space overflow in conjunction run", e.Name)
 	}
@@ -1354,7 +1388,7 @@ func c13Caller(c *kit.Ctx, m *ruModel, e, k *kit.Func, roles *c13Roles, runners,
 	for _, ract := range []string{"T", "F"} {
 		for _, rchg := range []string{"T", "F"} {
 			st := &kit.Std{F: k}
-			bf := &kit.BoolFlow{Std: st}
+			bf := &kit.BoolFlow{Std: st, ForkUnknown: true}
 			bf.SymResult = func(call *ast.CallExpr, i int, s kit.S) string {
 				if k.CalleeFunc(call) != e {
 					return ""
@@ -1367,10 +1401,58 @@ func c13Caller(c *kit.Ctx, m *ruModel, e, k *kit.Func, roles *c13Roles, runners,
 				}
 				return ""
 			}
+			kparams := k.Params()
+			isPointsVal := func(t types.Type) bool {
+				el := ruSliceElem(t)
+				_, isPtr := t.(*types.Pointer)
+				return el != nil && !isPtr && types.Identical(el, m.point)
+			}
+			// is x the batch the caller was handed (its own points parameter, or a
+			// local currently holding it)?
+			batchClass := func(x ast.Expr, s kit.S) string {
+				id, ok := ast.Unparen(x).(*ast.Ident)
+				if !ok {
+					return "other"
+				}
+				o := kit.ObjOf(k.Info(), id)
+				for _, p := range kparams {
+					if types.Object(p) == o {
+						return "param"
+					}
+				}
+				if o != nil {
+					if v := s.Get("pv:" + kit.VarID(o)); v != "" {
+						return v
+					}
+				}
+				return "other"
+			}
 			st.OnNode = func(n ast.Node, s kit.S) []kit.S {
+				if as, ok := n.(*ast.AssignStmt); ok && len(as.Lhs) == len(as.Rhs) && (as.Tok == token.ASSIGN || as.Tok == token.DEFINE) {
+					var keys, vals []string
+					for i, l := range as.Lhs {
+						id, isId := ast.Unparen(l).(*ast.Ident)
+						if !isId {
+							continue
+						}
+						if o := kit.ObjOf(k.Info(), id); o != nil && isPointsVal(o.Type()) {
+							keys = append(keys, "pv:"+kit.VarID(o))
+							vals = append(vals, batchClass(as.Rhs[i], s))
+						}
+					}
+					for i := range keys {
+						s = s.Set(keys[i], vals[i])
+					}
+				}
 				for i, sx := range sites {
 					if n == ast.Node(sx.stmt) {
-						s = s.Set("site", strconv.Itoa(i)).Del("calls")
+						batch := "other"
+						for _, a := range sx.call.Args {
+							if isPointsVal(k.Info().TypeOf(a)) {
+								batch = batchClass(a, s)
+							}
+						}
+						s = s.Set("site", strconv.Itoa(i)).Set("batch", batch).Del("calls")
 					}
 				}
 				return []kit.S{s}
@@ -1481,13 +1563,17 @@ func c13Caller(c *kit.Ctx, m *ruModel, e, k *kit.Func, roles *c13Roles, runners,
 					continue
 				}
 				wit := fmt.Sprintf("evaluator reports active=%v changed=%v", ract == "T", rchg == "T")
+				// "changed=false → nothing runs" is required for the batch the caller
+				// was handed; a synthetic batch (the schedule trigger sent after a
+				// configuration change) may always bring the lists in line
+				strict := sx.bound && ex.State.Get("batch") == "param"
 				switch {
-				case sx.bound && rchg == "F":
+				case strict && rchg == "F":
 					if calls != "" {
 						report(sx.ob, res.PathTo(ex), "witness: %s → %s still executes %s", wit, k.Name, calls)
 						sx.bad = true
 					}
-				case sx.bound:
+				case strict:
 					if calls != want {
 						report(sx.ob, res.PathTo(ex), "witness: %s → %s executes {%s}, expected {%s}", wit, k.Name, calls, want)
 						sx.bad = true
